@@ -965,6 +965,146 @@ impl Observe for TR3 {
     }
 }
 
+fn di9_s1() -> S1 {
+    S1 { a: PM(Tok::FromIdent("a".into())), b: None, c: PM(Tok::FromIdent("c".into())), d: PM(Tok::FromIdent("d".into())) }
+}
+
+// from_ident + allow_unknown_fields + flatten + supports sets + data with + forwarded attrs with
+#[derive(FromDeriveInput)]
+#[darling(attributes(a), from_ident, allow_unknown_fields, supports(struct_any, enum_any), forward_attrs(doc))]
+pub struct DI9 {
+    ident: syn::Ident,
+    #[darling(with = aw::<5400>)]
+    attrs: AttrProbe,
+    #[darling(with = dw::<5401>)]
+    data: DataProbe,
+    #[darling(flatten)]
+    rest: S1,
+    #[darling(multiple, default = pdefv::<5402>)]
+    m: Vec<PM<5402>>,
+    #[darling(with = pw::<5403>, and_then = pthen::<5403>)]
+    w: PM<5403>,
+}
+impl From<syn::Ident> for DI9 {
+    fn from(ident: syn::Ident) -> Self {
+        from_ident_seam(5410);
+        DI9 { ident, attrs: AttrProbe(0), data: DataProbe, rest: di9_s1(), m: vec![], w: PM(Tok::FromIdent("w".into())) }
+    }
+}
+impl Observe for DI9 {
+    fn observe(&self) -> V {
+        V::Struct(
+            "DI9".into(),
+            vec![
+                ("ident".into(), ident_val(&self.ident)),
+                ("attrs".into(), self.attrs.observe()),
+                ("data".into(), self.data.observe()),
+                ("rest".into(), self.rest.observe()),
+                ("m".into(), self.m.observe()),
+                ("w".into(), self.w.observe()),
+            ],
+        )
+    }
+}
+
+fn vr5_map(v: VR5) -> VR5 {
+    cmap::<5510, VR5>(v)
+}
+
+// container default + map + forwarded attrs with, on a variant receiver
+#[derive(FromVariant)]
+#[darling(attributes(a), forward_attrs(doc), map = vr5_map, default)]
+pub struct VR5 {
+    ident: syn::Ident,
+    #[darling(with = aw::<5500>)]
+    attrs: AttrProbe,
+    fields: ast::Fields<FR1>,
+    p: PM<5501>,
+    #[darling(multiple)]
+    m: Vec<PM<5502>>,
+}
+impl Default for VR5 {
+    fn default() -> Self {
+        container_default_seam(5520);
+        VR5 {
+            ident: syn::Ident::new("unset", proc_macro2::Span::call_site()),
+            attrs: AttrProbe(0),
+            fields: ast::Fields::new(ast::Style::Unit, vec![]),
+            p: Default::default(),
+            m: Default::default(),
+        }
+    }
+}
+impl Observe for VR5 {
+    fn observe(&self) -> V {
+        V::Struct(
+            "VR5".into(),
+            vec![
+                ("ident".into(), ident_val(&self.ident)),
+                ("attrs".into(), self.attrs.observe()),
+                ("fields".into(), self.fields.observe()),
+                ("p".into(), self.p.observe()),
+                ("m".into(), self.m.observe()),
+            ],
+        )
+    }
+}
+
+fn at3_then(v: AT3) -> darling::Result<AT3> {
+    cthen::<5610, AT3>(v)
+}
+
+#[derive(FromAttributes)]
+#[darling(attributes(a), and_then = at3_then, allow_unknown_fields, default)]
+pub struct AT3 {
+    p: PM<5601>,
+    #[darling(multiple, with = pw::<5602>)]
+    mw: Vec<PM<5602>>,
+    #[darling(default = pdef::<5603>, and_then = pthen::<5603>)]
+    t: PM<5603>,
+}
+observe_struct!(AT3 { p, mw, t });
+impl Default for AT3 {
+    fn default() -> Self {
+        container_default_seam(5620);
+        AT3 { p: Default::default(), mw: Default::default(), t: Default::default() }
+    }
+}
+
+fn fr6_map(v: FR6) -> FR6 {
+    cmap::<5710, FR6>(v)
+}
+
+#[derive(FromField)]
+#[darling(attributes(a), default, map = fr6_map)]
+pub struct FR6 {
+    ident: Option<syn::Ident>,
+    p: PM<5701>,
+    #[darling(and_then = pthen::<5702>, default = pdef::<5702>)]
+    t: PM<5702>,
+    #[darling(skip)]
+    sk: PM<5703>,
+}
+impl Default for FR6 {
+    fn default() -> Self {
+        container_default_seam(5720);
+        FR6 { ident: None, p: Default::default(), t: Default::default(), sk: Default::default() }
+    }
+}
+impl Observe for FR6 {
+    fn observe(&self) -> V {
+        V::Struct(
+            "FR6".into(),
+            vec![
+                ("ident".into(), self.ident.as_ref().map(ident_val).unwrap_or(V::None)),
+                ("p".into(), self.p.observe()),
+                ("t".into(), self.t.observe()),
+                ("sk".into(), self.sk.observe()),
+            ],
+        )
+    }
+}
+
 pub enum ElemInput<'a> {
     DeriveInput(&'a syn::DeriveInput),
     Field(&'a syn::Field),
@@ -986,6 +1126,10 @@ pub fn run_elem_receiver(name: &str, input: &ElemInput) -> Option<Result<V, darl
         ("FR5", ElemInput::Field(f)) => ob(FR5::from_field(f)),
         ("VR3", ElemInput::Variant(v)) => ob(VR3::from_variant(v)),
         ("VR4", ElemInput::Variant(v)) => ob(VR4::from_variant(v)),
+        ("VR5", ElemInput::Variant(v)) => ob(VR5::from_variant(v)),
+        ("FR6", ElemInput::Field(f)) => ob(FR6::from_field(f)),
+        ("DI9", ElemInput::DeriveInput(d)) => ob(DI9::from_derive_input(d)),
+        ("AT3", ElemInput::Attributes(a)) => ob(AT3::from_attributes(a)),
         ("TR3", ElemInput::TypeParam(t)) => ob(TR3::from_type_param(t)),
         ("TR2", ElemInput::TypeParam(t)) => ob(TR2::from_type_param(t)),
         ("DI8", ElemInput::DeriveInput(d)) => ob(DI8::from_derive_input(d)),
